@@ -22,7 +22,7 @@ type fnState struct {
 }
 
 func (c *FnCtx) candidatesFor(li *loopInfo) []*candidate {
-	if c.state == nil || c.opts == nil || !c.opts.houdini {
+	if c.state == nil || c.opts == nil || !c.opts.houdini || (c.con != nil && c.con.Flags["nohoudini"]) {
 		return nil
 	}
 	if c.knownHeaps == nil {
